@@ -98,11 +98,29 @@ Fixpoint r_run (ops : list rop) (st : rst) (acc : list Z) : option (list Z * rst
       end
   end.
 
+(* the same without the accumulator (linear in the number of operations) *)
+Fixpoint r_run_lin (ops : list rop) (st : rst) : option (list Z * rst) :=
+  match ops with
+  | [] => Some ([], st)
+  | o :: r =>
+      let step : option (list Z * rst) :=
+        match o with
+        | RBegin l => match r_begin l st with None => None | Some (c, st') => Some ([c], st') end
+        | RClose => match r_close st with None => None | Some (c, st') => Some ([c], st') end
+        | RRead n => match r_read n st with None => None | Some (bs, c, st') => Some (c :: put_bytes bs, st') end
+        | RHelper n => match r_helper_read n st with None => None | Some (bs, c, st') => Some (c :: put_bytes bs, st') end
+        end in
+      match step with
+      | None => None
+      | Some (obs, st') => match r_run_lin r st' with None => None | Some (rest, stf) => Some (obs ++ rest, stf) end
+      end
+  end.
+
 (* fragr: frags ops -> panic? observations state released finished *)
 Definition run_fragr (c : list Z) : list Z :=
   let '(fs, r) := take_list take_frag c in
   let '(ops, _) := take_list take_rop r in
-  match r_run ops (r_init fs) [] with
+  match r_run_lin ops (r_init fs) with
   | None => [1]
   | Some (obs, st) => 0 :: obs ++ [rs_state st; rs_rel st; zb (rs_fin st)]
   end.
